@@ -88,7 +88,7 @@ func (s *Sim) ApplyEdit(op Op) EditInfo {
 	info := EditInfo{Class: op.Kind}
 	all := m.Live()
 	switch op.Kind {
-	case "src-new", "src-same", "src-recreate", "src-revert":
+	case "src-new", "src-same", "src-recreate", "src-revert", "src-rm":
 		ids := m.liveWhere(func(t *Target) bool { return len(t.Sources) > 0 })
 		id := pick(ids, op.T)
 		if id < 0 {
@@ -109,6 +109,13 @@ func (s *Sim) ApplyEdit(op Op) EditInfo {
 			s.Touch(f, false)
 		case "src-recreate":
 			s.Touch(f, true)
+		case "src-rm":
+			// the source stays declared but its file is gone
+			if _, ok := m.Files[f]; !ok {
+				return info
+			}
+			delete(m.Files, f)
+			info.Semantic = true
 		case "src-revert":
 			orig := "content of " + f + "\n"
 			if m.Files[f] != orig {
@@ -485,7 +492,7 @@ var longPrefix = strings.Repeat("shared prefix 0123456789 ", 8)
 
 var contentPool = []string{"one\n", "two\n", longPrefix + "A\n", "three", longPrefix + "B\n", "", "one\n", longPrefix + "A\n", "one\ntwo\n", longPrefix + "C"}
 
-var semanticEdits = []string{"src-new", "const", "body", "helper-const", "helper-code", "dir-add", "dir-del", "dir-rename", "dir-edit", "dep-add", "dep-del", "src-add", "src-del", "gen-del", "flag", "src-revert", "const", "src-new"}
+var semanticEdits = []string{"src-rm", "src-new", "const", "body", "helper-const", "helper-code", "dir-add", "dir-del", "dir-rename", "dir-edit", "dep-add", "dep-del", "src-add", "src-del", "gen-del", "flag", "src-revert", "const", "src-new"}
 var noopEdits = []string{"src-same", "src-recreate", "comment", "blank", "doc", "unrelated-src", "dir-recreate"}
 
 // GenEdit draws an edit op of the given class list.
